@@ -4,7 +4,10 @@ def units(tier):
     u = Unit('token', 'wrap.cc', 'harness.c', externs=['strtod', 'strtod_l', 'newlocale', 'freelocale', '__errno_location', '_ZN3fmt14BasicFormatterIcNS_12ArgFormatterIcEEE6formatENS_15BasicCStringRefIcEE', '_ZN2mp9ReadError4initEN3fmt15BasicCStringRefIcEEiiS3_NS1_7ArgListE'],
              extra_repo_cc=['src/format.cc', 'src/os.cc', 'src/posix.cc', 'src/expr-info.cc'])
     u.stub_undefined = True; u.tool_c = ['vf_file.c']
-    return [u]
+    EXTS = ['vf_tk_char', 'vf_tk_uint', 'vf_tk_int', 'vf_tk_double', 'vf_tk_name', 'vf_tk_string', 'vf_tk_eol', 'vf_tk_iseof', 'vf_tk_error', 'vf_cb']
+    us = Unit('seg', 'wrap_seg.cc', 'harness_seg.c', externs=EXTS, extra_repo_cc=['src/expr-info.cc'], ll2c_args=['--inline-mem', '1024'])
+    us.stub_undefined = True; us.tv = False
+    return [u, us]
 def harnesses(tier):
     L = 12 if tier == 'quick' else 20
     A = ['input = arbitrary bytes (incl. NUL) of length 0..%d followed by the NUL sentinel which is the last byte of its block; cursor anywhere in [0, n]' % L,
@@ -19,4 +22,11 @@ def harnesses(tier):
         ('h_read_double', 'ReadDouble: consumes a number inside the input or reports a located error', [], [])]:
         hs.append(Harness(n, 'token', unwind=L + 3, timeout=900 if tier == 'quick' else 3600, mem_gb=44, bounds='input <= %d bytes' % L, claims=c, assumptions=A,
                           defines=['MAXLEN=%d' % L] + extra, known=kf, tv_cases=1500, flags=['--object-bits', '12'], backend='cadical' if 'int' in n or 'long' in n or 'short' in n else 'sat'))
+    SH = {1: 'C b', 2: 'b L', 3: 'O b', 4: 'V b', 5: 'b F', 6: 'b J', 7: 'G b', 8: 'b r', 9: 'k b', 10: 'b x', 11: 'b d', 12: 'S0 b', 13: 'b S5', 14: 'b S2', 15: 'b S7', 16: 'V C b', 17: 'b J r'}
+    AS = ['file = token script of the enumerated segment sequence (token kinds and read positions concrete); every index, count that does not change the layout, sense and number symbolic (31-bit / any double); header: 2 variables, 2 algebraic constraints, 0..3 objectives / logical constraints / functions, 0..2 common expressions (symbolic)',
+          'token layer = symbolic reader with the contract decided by the token harnesses above; expressions: a reference, a number, one unary / relational operator over them']
+    for k in sorted(SH):
+        h = Harness('h_segments', 'seg', unwind=10, timeout=300 if tier == 'quick' else 1200, mem_gb=16, defines=['SHAPE=%d' % k], tv_cases=0, bounds='segments %s' % SH[k], assumptions=AS, flags=['--object-bits', '10'],
+                    claims='NLReader::Read: handler receives exactly the items of the file, in order, every index within the header range; out-of-range index/count <=> read error')
+        h.label = 'h_segments[%s]' % SH[k].replace(' ', ''); hs.append(h)
     return hs
